@@ -11959,6 +11959,11 @@ let rec misused_class in_cc = function
 let regex_prepare e =
   misused_class false (misused_repetition (cleanup e))
 
+(** val regex_effective : (n list -> bool) -> n list -> n list **)
+
+let regex_effective compiles e =
+  let c = cleanup e in if compiles c then c else regex_prepare e
+
 (** val sh_safe : n -> bool **)
 
 let sh_safe c =
